@@ -192,6 +192,7 @@ type Exec struct {
 	clockLast  *Int
 	ufDecl     map[string]bool
 	ntpdef     int
+	quiet      bool // suppress inconclusive notes (sampling)
 	tpReg      []tpRegEntry
 	tpActive   map[string]bool
 	race       raceState
@@ -276,6 +277,9 @@ func (e *Exec) feasible(t *Term) bool {
 }
 
 func (e *Exec) incon(why string) {
+	if e.quiet {
+		return
+	}
 	if len(e.st.Incon) < 50 {
 		e.st.Incon = append(e.st.Incon, why)
 	}
@@ -785,7 +789,18 @@ func (e *Exec) runPath(prefix []int64) {
 	// reachability witness + sample
 	if int(e.st.Paths) <= e.sh.cfg.Samples || len(e.inputs) == 0 || (e.sh.cfg.SampleEvery > 0 && int(e.st.Paths)%e.sh.cfg.SampleEvery == 0) {
 		if len(e.inputs) > 0 {
-			if e.sol.Check() == "sat" {
+			// a sample must be a realisable path: with uninterpreted
+			// functions on the path the model is settled natively first
+			// (a path that cannot be realised at the points tried is simply
+			// not sampled)
+			e.quiet = true
+			r := e.checkRefined()
+			e.quiet = false
+			if r != "sat" && len(e.ufApps) > 0 {
+				r = "skip"
+			}
+			if r == "skip" {
+			} else if r == "sat" {
 				m := e.model()
 				s := map[string]interface{}{"inputs": m, "decisions": len(e.trace)}
 				if len(e.observed) > 0 {
